@@ -85,6 +85,9 @@ def eval_block(mats, scale, via, dtype, alphas):
             return eval_block(mats, scale, via, "int", alphas)
     if via == "cm2":
         return eval_block_two_class(mats, scale, dtype, alphas)
+    masked = dtype == "masked"              # the matrix handed over as a numpy masked array (nothing masked)
+    if masked:
+        dtype = "int"
     from score_analysis import ConfusionMatrix, metrics
     f = SCALES[scale]
     arr = np.asarray(mats)
@@ -93,6 +96,8 @@ def eval_block(mats, scale, via, dtype, alphas):
     else:
         arr = arr.astype(np.int64) * int(f)
     out = {"rates": {}, "ci": {}, "basic": {}}
+    if masked:
+        arr = np.ma.masked_array(arr)
     cm = ConfusionMatrix(matrix=arr, binary=True) if via == "cm" else None
 
     def call(name, *a, **k):
@@ -169,7 +174,7 @@ def events(cases, alphas, ids, tier):
                 if scale in ("half", "tiny") and dtype == "int":
                     continue
                 variants.append((scale, via, dtype))
-    variants += [("1", "metrics", "strict"), ("1", "cm", "strict"), ("1", "cm2", "int"), ("half", "cm2", "float")]
+    variants += [("1", "cm", "masked"), ("1", "metrics", "strict"), ("1", "cm", "strict"), ("1", "cm2", "int"), ("half", "cm2", "float")]
     for (scale, via, dtype) in variants:
         unit = 10**9 if scale == "big" else 10**6
         blocks = [("(n,)", M, (n,))]
